@@ -140,6 +140,10 @@ func (si *SignerInfo) Verify(content []byte, skipDigests bool, certs []*x509.Cer
 		}
 		w.Write(attrbytes)
 		digest = w.Sum(nil)
+	} else if si.hasEmptyAuthenticatedAttributes() {
+		// the field is there, so the signature would have to cover its (empty)
+		// encoding, not the content; RFC 5652 does not allow an empty set
+		return nil, errors.New("pkcs7: authenticated attributes are present but empty")
 	} // otherwise the content hash is verified directly
 	cert, err := si.FindCertificate(certs)
 	if err != nil {
